@@ -75,7 +75,7 @@ REFINE = {
  'C04': 'pppoesrv: `monitor_silent_on_model`; pppauth: monitor silent on every model history (Spec.C04Auth)',
  'C05': 'bitmap: `bitmap_refines_poolspec`; pppoesrv: `monitor_silent_on_model`',
  'C10': '`monitor_silent_on_model`',
- 'C16': 'pppoesrv: `monitor_silent_on_model` (+ timed layer `timed_projects`); others: runs only',
+ 'C16': 'pppoesrv: `monitor_silent_on_model` (+ timed layer `timed_projects`); teardown: `per_session_clauses_silent_on_model` (not-terminated clauses: runs only); submgr, dhcpterm: runs only',
  'C19': 'over-admit monitor proved sound (`over_admit_monitor_sound`)',
 }
 TRANSL = {'C06': 'extractlayout', 'C11': 'extractfsm (+ reference tables for the search)', 'C16': 'extractpaths'}
